@@ -44,3 +44,22 @@ string error_handler (mapping m, int caught) {
   }
   return "";
 }
+
+// preload_objects(): epilog() names the files, preload() "loads" each one (scripted: `err` = the file fails to load)
+string *epilog (int eflag) {
+  string spec = REG->script ("preload");
+  string *f = ({ });
+  int i, n;
+  VL ("t epilog");
+  if (!stringp (spec)) return f;
+  if (spec == "epilog-err") { VL ("x err epilog"); error ("boom epilog\n"); }
+  n = sizeof (explode (spec, ","));
+  for (i = 1; i <= n; i++) f += ({ "p" + i });
+  return f;
+}
+void preload (string file) {
+  string *b = explode (REG->script ("preload"), ",");
+  int i = to_int (file[1..]);
+  VL ("t preload " + file);
+  if (i >= 1 && i <= sizeof (b) && b[i - 1] == "err") { VL ("x err " + file); error ("boom " + file + "\n"); }
+}
